@@ -216,6 +216,19 @@ CHECKS["C10"] = dict(
               "of retained references after every element / element sequence",
 )
 
+CHECKS["C14"] = dict(
+    text="VyLazyPipe gives every catalogued transformation a demand relation NeedCount(stage, c); MC_Pipe runs the "
+         "demand-driven evaluation of Take(n) for every composition of stage kinds and checks termination under weak "
+         "fairness, that the source is never over-pulled, and that the demand stays within the composed linear bound. "
+         "36 catalogued transformations and admissible compositions of up to 3 are applied to an instrumented infinite "
+         "source and read one item at a time under a watchdog; TLC checks every delivery against 2*Need+8.",
+    note="Trusted: the stage kind assigned to each transformation (harness/c14.py catalogue) and the value-flow typing "
+         "that keeps side conditions (injective source, periodic predicate); slack factor 2, +8.",
+    ref="DESIGN.md section 6 C14",
+    technique="TLA+ spec (VyLazyPipe demand relations; MC_Pipe with liveness) model-checked by TLC + TLC validation of "
+              "pull-count traces of real lazy pipelines",
+)
+
 NOT_APPLICABLE = {}
 
 DEFAULT_NA = ("check under construction in this round; it will be claimed when its TLA+ module and "
